@@ -364,3 +364,137 @@ def in_service_factor(ctx, rule, fi, acc_names=("p", "q"), mask_name="vl"):
                            f"`{norm(st, 110)}`: the term is not multiplied by the in-service mask {mask_name} ({typ}) - an out-of-service "
                            "element still contributes to the bus admittance while its result row reports zero", fi.loc(st))
     return n
+
+
+def split_total(ctx, rule):
+    """pfsoln._split_p_for_gens_at_same_bus, several generators at one reference bus: only the reference rows (ext_grids) are
+    assigned - the other generators keep their set-point - and the amount shared among them is the bus power minus the
+    set-points of those other generators, in the weighted and in the unweighted branch alike."""
+    import ast
+    from ppsa.astutil import norm, inline_locals
+    fi = ctx.repo.func("pandapower.pypower.pfsoln:_split_p_for_gens_at_same_bus")
+    outer = next((n for n in fi.node.body if isinstance(n, ast.If)), None)
+    if outer is None:
+        ctx.fail("_split_p_for_gens_at_same_bus: the `len(gens_at_bus) > 1` branch was not found")
+    KEEP = ("p_bus", "gens_at_bus", "ext_grids", "gen", "ref_gens", "slack_weights", "sum_slack_weights")
+    want_total = "p_bus-sum(gen[setdiff1d(gens_at_bus,ext_grids),PG])"
+    n = 0
+    for st in ast.walk(outer):
+        if not (isinstance(st, ast.Assign) and isinstance(st.targets[0], ast.Subscript) and norm(st.targets[0].value, 10) == "gen"):
+            continue
+        if st in outer.orelse or any(st is x for b in outer.orelse for x in ast.walk(b)):
+            continue   # single generator at the bus
+        n += 1
+        rows = norm(st.targets[0].slice, 60).replace(" ", "").strip("()")
+        ok_rows = rows == "ext_grids,PG"
+        v = norm(inline_locals(outer, st.value, keep=KEEP), 400).replace(" ", "")
+        if "slack_weights" in v:
+            ok_total = f"({want_total}-sum(gen[ext_grids,PG]))*slack_weights/sum_slack_weights" in v
+        else:
+            ok_total = v == f"({want_total})/len(ext_grids)"
+        ctx.ob(rule, f"pandapower.pypower.pfsoln::_split_p_for_gens_at_same_bus::total#{n}", ok_rows and ok_total,
+               "reference rows share the bus power minus the other generators' set-points" if ok_rows and ok_total else
+               (f"`{norm(st, 120)}` assigns rows [{rows}]: generators that are not reference machines lose their set-point" if not ok_rows else
+                f"`{norm(st, 120)}` shares `{v[:90]}`: the set-points of the other generators at the bus are not subtracted (or not for this branch)"),
+               fi.loc(st))
+    ext = [s for s in ast.walk(outer) if isinstance(s, ast.Assign) and norm(s.targets[0], 20) == "ext_grids"]
+    ok = bool(ext) and norm(ext[0].value, 80).replace(" ", "") == "intersect1d(gens_at_bus,ref_gens)"
+    ctx.ob(rule, "pandapower.pypower.pfsoln::_split_p_for_gens_at_same_bus::reference-rows", ok,
+           f"ext_grids = {norm(ext[0].value, 60) if ext else '?'}", fi.loc())
+    if n < 2:
+        ctx.fail(f"_split_p_for_gens_at_same_bus: {n} sharing statements found (confirmed: 2)")
+    return n
+
+
+def pfsoln_twins(ctx, rule):
+    """pypower/pfsoln.py::pfsoln and pf/pfsoln_numba.py::pfsoln are two implementations behind one slot (selected by the numba
+    option): the generator bookkeeping - which generators are `on`, their buses, the bus power, the calls of _update_v/_update_q/
+    _update_p - must be identical; only the branch flow computation differs."""
+    import ast
+    from ppsa.astutil import norm
+    a = ctx.repo.func("pandapower.pypower.pfsoln:pfsoln")
+    b = ctx.repo.func("pandapower.pf.pfsoln_numba:pfsoln")
+    NAMES = ("on", "gbus", "Ibus", "Sbus")
+    CALLS = ("_update_v", "_update_q", "_update_p")
+
+    def facts(fi):
+        out = []
+        for st in sorted((x for x in ast.walk(fi.node) if isinstance(x, (ast.Assign, ast.Expr))), key=lambda x: x.lineno):
+            if isinstance(st, ast.Assign) and len(st.targets) == 1 and isinstance(st.targets[0], ast.Name) and st.targets[0].id in NAMES:
+                guard = ""
+                out.append((st.targets[0].id, norm(st.value, 300).replace(" ", ""), st))
+            elif isinstance(st, ast.Expr) and isinstance(st.value, ast.Call) and isinstance(st.value.func, ast.Name) and st.value.func.id in CALLS:
+                out.append((st.value.func.id, norm(st.value, 300).replace(" ", ""), st))
+        return out
+    fa, fb = facts(a), facts(b)
+    n = 0
+    for i in range(max(len(fa), len(fb))):
+        xa = fa[i] if i < len(fa) else ("<missing>", "", None)
+        xb = fb[i] if i < len(fb) else ("<missing>", "", None)
+        n += 1
+        ok = xa[:2] == xb[:2]
+        ctx.ob(rule, f"pandapower.pf.pfsoln_numba::pfsoln::step{i}:{xb[0]}", ok,
+               f"{xb[0]}: identical in both implementations" if ok else
+               f"numba twin: `{xb[0]} = {xb[1][:110]}`, pypower twin: `{xa[0]} = {xa[1][:110]}` - results depend on the numba option",
+               b.loc(xb[2]) if xb[2] is not None else b.loc())
+    if n < 8:
+        ctx.fail(f"pfsoln twins: only {n} bookkeeping steps found (confirmed: 9)")
+    # guard of the limited-generator extension
+    for fi in (a, b):
+        g = [x for x in ast.walk(fi.node) if isinstance(x, ast.If) and "limited_gens" in norm(x.test, 80)]
+        ok = bool(g) and norm(g[0].test, 100).replace(" ", "") == "limited_gensisnotNoneandlen(limited_gens)>0"
+        ctx.ob(rule, f"{fi.module.name}::pfsoln::limited-guard", ok, f"guard `{norm(g[0].test, 80) if g else '?'}`", fi.loc())
+    return n
+
+
+def dc_cache_refresh(ctx, rule):
+    """run_dc_pf._run_dc_pf, recycled branch: `if array_equal(internal['shift'], branch[:, SHIFT]): <read cached K...> else: <recompute>`
+    - the recompute branch must store every key the reuse branch reads and the key the test compares, otherwise a later run with an
+    unchanged shift reuses stale phase-shift injections."""
+    import ast
+    from ppsa.astutil import norm
+    fi = ctx.repo.func("pandapower.pf.run_dc_pf:_run_dc_pf")
+
+    def keys_read(node):
+        out = set()
+        for x in ast.walk(node):
+            if isinstance(x, ast.Subscript) and isinstance(x.ctx, ast.Load) and isinstance(x.slice, ast.Constant) and isinstance(x.slice.value, str) \
+                    and norm(x.value, 40).replace('"', "'").replace(" ", "") == "ppci['internal']":
+                out.add(x.slice.value)
+        return out
+
+    def keys_stored(stmts):
+        out = set()
+        for s in stmts:
+            for x in ast.walk(s):
+                if isinstance(x, ast.Assign):
+                    for t in x.targets:
+                        if isinstance(t, ast.Subscript) and isinstance(t.slice, ast.Constant) and norm(t.value, 40).replace('"', "'").replace(" ", "") == "ppci['internal']":
+                            out.add(t.slice.value)
+                if isinstance(x, ast.Call) and isinstance(x.func, ast.Attribute) and x.func.attr == "update" and \
+                        norm(x.func.value, 40).replace('"', "'").replace(" ", "") == "ppci['internal']":
+                    out |= {k.arg for k in x.keywords if k.arg}
+                    for a in x.args:
+                        if isinstance(a, ast.Dict):
+                            out |= {k.value for k in a.keys if isinstance(k, ast.Constant)}
+        return out
+    found = 0
+    for n in ast.walk(fi.node):
+        if isinstance(n, ast.If) and "array_equal" in norm(n.test, 120) and "'shift'" in norm(n.test, 120).replace('"', "'") and n.orelse:
+            found += 1
+            need = keys_read(n.test) | set().union(*[keys_read(s) for s in n.body])
+            have = keys_stored(n.orelse)
+            missing = sorted(need - have)
+            ctx.ob(rule, "pandapower.pf.run_dc_pf::_run_dc_pf::shift-cache", not missing,
+                   f"recompute branch stores {sorted(have)}; reuse branch reads {sorted(need)}" if not missing else
+                   f"when the phase shift changed, the cache keys {missing} are not refreshed although the reuse branch reads them: the next "
+                   "recycled run with an unchanged shift uses stale phase-shift injections", fi.loc(n))
+    if not found:
+        ctx.fail("_run_dc_pf: the shift comparison of the recycled branch was not found")
+    # the non-recycled branch stores the same keys
+    top = next((n for n in fi.node.body if isinstance(n, ast.If) and "recycle" in norm(n.test, 200)), None)
+    if top is not None:
+        have = keys_stored(top.orelse)
+        need = {"Bbus", "Bf", "Pbusinj", "Pfinj", "Cft", "shift", "branch"}
+        ctx.ob(rule, "pandapower.pf.run_dc_pf::_run_dc_pf::full-build-cache", need <= have, f"full build stores {sorted(have)}", fi.loc(top))
+    return found
